@@ -175,12 +175,22 @@ class Helper:
         self._roles = roles
         return roles
 
-    def expr_roles(self, e, func, cn, roles=None):
+    def expr_roles(self, e, func, cn, roles=None, _seen=None):
         """Roles of a cache-typed expression at CFG node cn."""
         if roles is None:
             roles = self.roles()
         cfg = self.cfgs.get(func)
         out = set()
+        if _seen is None:
+            _seen = set()
+        ts = self.prog.type_of(e, func)
+        if ts and self.cache_class() not in ts and not isinstance(e, ast.Call):
+            return {'not-a-cache'}
+        if isinstance(e, ast.Name):
+            k = (func.qualname, e.id)
+            if k in _seen:
+                return out
+            _seen.add(k)
         if isinstance(e, ast.Call):
             fl = self._factory_flag(e, func, {})
             if fl is True:
@@ -200,7 +210,7 @@ class Helper:
             for nid in rd:
                 v = cfg.def_value(nid, e.id)
                 if isinstance(v, ast.AST):
-                    out |= self.expr_roles(v, func, cfg.nodes[nid], roles)
+                    out |= self.expr_roles(v, func, cfg.nodes[nid], roles, _seen)
                 elif v[0] == 'param':
                     got = False
                     for caller, call in self.prog.callers().get(
@@ -209,7 +219,7 @@ class Helper:
                         if a is None or isinstance(a, list):
                             continue
                         for ccn in self.node_of(caller, call):
-                            out |= self.expr_roles(a, caller, ccn, roles)
+                            out |= self.expr_roles(a, caller, ccn, roles, _seen)
                             got = True
                     if not got:
                         out.add('unknown')
